@@ -126,7 +126,7 @@ fn make(family: &str, mode: &str, bs: usize, w: usize, key: &[u8], iv: &[u8]) ->
         ("stream", "ctr128be") => matrix_div16!(bs, w, C => StreamObj::<ctr::CtrCore<C, fl::Ctr128BE>>::new_alias(key, iv, alias_ks!(ctr::Ctr128BE<C>))),
         ("stream", "ctr128le") => matrix_div16!(bs, w, C => StreamObj::<ctr::CtrCore<C, fl::Ctr128LE>>::new_alias(key, iv, alias_ks!(ctr::Ctr128LE<C>))),
         ("stream", "ofb") => matrix_all!(bs, w, C => StreamObj::<ofb::OfbCore<C>>::new_alias(key, iv, alias_ks!(ofb::Ofb<C>))),
-        ("stream", "belt") => matrix_16!(bs, w, C => StreamObj::<belt_ctr::BeltCtrCore<C>>::new_alias(key, iv, alias_ks!(belt_ctr::BeltCtr<C>))),
+        ("stream", "belt") => matrix_16!(bs, w, C => StreamObj::<belt_ctr::BeltCtrCore<C>>::new_alias_probe(key, iv, alias_ks!(belt_ctr::BeltCtr<C>), maybe_clone_fn!(belt_ctr::BeltCtr<C>))),
         ("core", "ctr32be") => matrix_div4!(bs, w, C => CoreObj::<ctr::CtrCore<C, fl::Ctr32BE>>::new(key, iv)),
         ("core", "ctr32le") => matrix_div4!(bs, w, C => CoreObj::<ctr::CtrCore<C, fl::Ctr32LE>>::new(key, iv)),
         ("core", "ctr64be") => matrix_div8!(bs, w, C => CoreObj::<ctr::CtrCore<C, fl::Ctr64BE>>::new(key, iv)),
@@ -134,7 +134,7 @@ fn make(family: &str, mode: &str, bs: usize, w: usize, key: &[u8], iv: &[u8]) ->
         ("core", "ctr128be") => matrix_div16!(bs, w, C => CoreObj::<ctr::CtrCore<C, fl::Ctr128BE>>::new(key, iv)),
         ("core", "ctr128le") => matrix_div16!(bs, w, C => CoreObj::<ctr::CtrCore<C, fl::Ctr128LE>>::new(key, iv)),
         ("core", "ofb") => matrix_all!(bs, w, C => CoreObj::<ofb::OfbCore<C>>::new(key, iv)),
-        ("core", "belt") => matrix_16!(bs, w, C => CoreObj::<belt_ctr::BeltCtrCore<C>>::new(key, iv)),
+        ("core", "belt") => matrix_16!(bs, w, C => CoreObj::<belt_ctr::BeltCtrCore<C>>::new_probe(key, iv, maybe_clone_fn!(belt_ctr::BeltCtrCore<C>))),
         ("cts", "cbccs1") => matrix_all!(bs, w, C => CtsObj::<cts::CbcCs1<C>>::new_dbg(key, iv, |k: &[u8], v: &[u8]| { let m = <cts::CbcCs1<C> as cipher::KeyIvInit>::new(k.try_into().unwrap(), v.try_into().unwrap()); maybe_debug!(m) })),
         ("cts", "cbccs2") => matrix_all!(bs, w, C => CtsObj::<cts::CbcCs2<C>>::new_dbg(key, iv, |k: &[u8], v: &[u8]| { let m = <cts::CbcCs2<C> as cipher::KeyIvInit>::new(k.try_into().unwrap(), v.try_into().unwrap()); maybe_debug!(m) })),
         ("cts", "cbccs3") => matrix_all!(bs, w, C => CtsObj::<cts::CbcCs3<C>>::new_dbg(key, iv, |k: &[u8], v: &[u8]| { let m = <cts::CbcCs3<C> as cipher::KeyIvInit>::new(k.try_into().unwrap(), v.try_into().unwrap()); maybe_debug!(m) })),
@@ -229,7 +229,7 @@ fn main() {
                             c.pool.push(o);
                             "ok".into()
                         }
-                        None => "bad-op".into(),
+                        None => "noclone".into(),
                     }
                 }
                 ["use", i] => match i.parse::<usize>() {
@@ -252,7 +252,7 @@ fn main() {
                             let r = catch_unwind(AssertUnwindSafe(|| dst.clone_from_dyn(src.as_any())));
                             match r {
                                 Ok(true) => "ok".into(),
-                                Ok(false) => "bad-op".into(),
+                                Ok(false) => "noclone".into(),
                                 Err(_) => "panic".into(),
                             }
                         }
